@@ -376,6 +376,7 @@ def engine_session(args):
         for c in jobs:
             pos = f"position fen {c['fen']}" + (" moves " + " ".join(c["hist"]) if c["hist"] else "")
             go = f"go depth {c['depth']} searchmoves {c['m']}" + (" " + c["other"] if c.get("other") else "")
+            if c.get("free"): go = f"go depth {c['depth']}"       # unrestricted root: the drawing move competes with the others (ordering, re-searches)
             try:
                 if c.get("control_fen"): eng.send("setoption name Clear Hash"); eng.isready()
                 out = eng.go(pos, go, timeout=120)
@@ -415,6 +416,22 @@ def audit_engine(ctx, recs):
                               f"and {b} without it (`{rec['pos'][:200]}` / `{rec['go']}` vs `position fen {rec['control_fen']}`)",
                               {"kind": "property-predicate", "tie": "engine", "fen": rec["fen"], "hist": rec["hist"], "m": rec["m"], "depth": 1, "opts": rec["opts"], "family": rec["fam"],
                                "expect": None, "why": "control", "oracle": rec["oracle"], "control_fen": rec["control_fen"], "input": [rec["pos"], rec["go"]]})
+            continue
+        if rec.get("free"):
+            # the side to move may play the drawing move, and that move is scored exactly 0: the completed search cannot end below 0
+            xs = [uci.parse_info(l) for l in rec["out"] if l.startswith("info") and " score " in l and " pv " in l]
+            xs = [d for d in xs if "bound" not in d]
+            stats["free_root"] = stats.get("free_root", 0) + 1
+            if xs:
+                d = xs[-1]
+                below = (d.get("score_kind") == "cp" and d["score"] < 0) or (d.get("score_kind") == "mate" and d["score"] < 0)
+                if below and nviol < 4:
+                    nviol += 1
+                    what = "creates the third occurrence of a position" if rec["why"] == "third_occurrence" else "completes 50 moves by each side without capture or pawn move"
+                    ctx.violation(f"the move {rec['m']} {what} (oracle: {rec['oracle']}), so it is worth exactly a draw, but the unrestricted search ended with `{d['raw'][:140]}` "
+                                  f"for `{rec['pos'][:200]}` / `{rec['go']}`",
+                                  {"kind": "property-predicate", "tie": "engine", "fen": rec["fen"], "hist": rec["hist"], "m": rec["m"], "depth": rec["depth"], "free": True,
+                                   "opts": rec["opts"], "family": rec["fam"], "expect": list(exp), "why": rec["why"], "oracle": rec["oracle"], "input": [rec["pos"], rec["go"]]})
             continue
         infos = [uci.parse_info(l) for l in rec["out"] if l.startswith("info") and " score " in l and " pv " in l]
         infos = [d for d in infos if d.get("pv") and d["pv"][0] == rec["m"]]
@@ -491,6 +508,12 @@ def check_engine(ctx, games, quick, env):
         js = js[i % 2::2] if multi else js[(i if i < 3 else 3)::4]
         for k in range(0, len(js), 50):
             sessions.append((o, js[k:k + 50]))
+    # unrestricted roots for the drawing moves (no searchmoves): the root's final score cannot be below the draw that is on offer
+    free = [dict(c, free=True, depth=r.choice([2, 3, 4, 5, 6, 7]), other=None, multipv=False) for c in chosen if c["expect"] == ("cp", 0)]
+    r.shuffle(free); free = free[:120 if quick else 3000]
+    fopts = [{}, {"Hash": 1}, {"Threads": 2}, {"UseNullMove": "false"}]
+    for k in range(0, len(free), 30):
+        sessions.append((fopts[(k // 30) % len(fopts)], free[k:k + 30]))
     # controls: a move that creates at most the second occurrence must be scored as if there were no history
     # (depth 1: below ply 1 only the quiescence search runs, which does not look at the history)
     r.shuffle(controls)
@@ -718,7 +741,7 @@ def replay(ctx, env):
     if rp.get("tie") == "engine":
         c = {k: rp[k] for k in ("fen", "hist", "m", "depth", "opts")}
         c.update({"fam": rp.get("family", ""), "other": rp.get("other"), "expect": tuple(rp["expect"]) if rp.get("expect") else None, "why": rp["why"], "oracle": rp["oracle"],
-                  "control_fen": rp.get("control_fen")})
+                  "control_fen": rp.get("control_fen"), "free": rp.get("free", False)})
         opts = c.pop("opts")
         recs = engine_session((opts, [c]))
         for x in recs: print("\n".join(x.get("out", [str(x)])[-4:]))
